@@ -90,6 +90,75 @@ type c34Entry struct {
 
 const c34New = 9000
 
+// c34CraftPacks builds snapshots around hand-placed blobs and says which blobs' packs are to be
+// named for repair and how those packs are damaged:
+//
+//	crafted-adjacent-missing: one file with chunks [b1 b2 b3 b4]; b2 and b3 live in a pack of their
+//	  own which is deleted -> two ADJACENT chunks are lost;
+//	crafted-dup-both-targets: blob x is stored in two packs and BOTH are named (undamaged).
+func c34CraftPacks(ctx context.Context, repo *repository.Repository, rng *vrng, variant string) (blobs []restic.ID, op string, err error) {
+	save := func(t restic.BlobType, bufs ...[]byte) ([]restic.ID, error) {
+		var ids []restic.ID
+		err := repo.WithBlobUploader(ctx, func(ctx context.Context, up restic.BlobSaverWithAsync) error {
+			for _, b := range bufs {
+				id, _, _, err := up.SaveBlob(ctx, t, b, restic.ID{}, true)
+				if err != nil {
+					return err
+				}
+				ids = append(ids, id)
+			}
+			return nil
+		})
+		return ids, err
+	}
+	ts := `"mtime":"2020-01-02T03:04:05Z","atime":"2020-01-02T03:04:05Z","ctime":"2020-01-02T03:04:05Z","uid":0,"gid":0`
+	var content []restic.ID
+	total := 0
+	chunk := func() []byte { b := rng.bytes(150 + rng.intn(300)); total += len(b); return b }
+	switch variant {
+	case "crafted-adjacent-missing":
+		outer, err := save(restic.DataBlob, chunk(), chunk())
+		if err != nil {
+			return nil, "", err
+		}
+		inner, err := save(restic.DataBlob, chunk(), chunk())
+		if err != nil {
+			return nil, "", err
+		}
+		content = []restic.ID{outer[0], inner[0], inner[1], outer[1]}
+		blobs, op = inner[:1], "delete"
+	default: // crafted-dup-both-targets
+		x := chunk()
+		a, err := save(restic.DataBlob, x, chunk())
+		if err != nil {
+			return nil, "", err
+		}
+		b, err := save(restic.DataBlob, x, chunk())
+		if err != nil {
+			return nil, "", err
+		}
+		total += len(x)
+		content = []restic.ID{a[0], a[1], b[0], b[1]}
+		blobs, op = a[:1], "none"
+	}
+	var cs []string
+	for _, id := range content {
+		cs = append(cs, `"`+id.String()+`"`)
+	}
+	root := fmt.Sprintf(`{"nodes":[{"name":"chunked","type":"file","mode":420,%s,"size":%d,"content":[%s]}]}`+"\n", ts, total, strings.Join(cs, ","))
+	rootIDs, err := save(restic.TreeBlob, []byte(root))
+	if err != nil {
+		return nil, "", err
+	}
+	sn, err := data.NewSnapshot([]string{"/crafted"}, nil, "verif", time.Date(2020, 1, 2, 3, 4, 5, 0, time.UTC))
+	if err != nil {
+		return nil, "", err
+	}
+	sn.Tree = &rootIDs[0]
+	_, err = data.SaveSnapshot(ctx, repo, sn)
+	return blobs, op, err
+}
+
 // c34Craft adds a snapshot whose root has two intact files and a directory whose tree blob is
 // stored under its true SHA-256 but cannot be decoded: either from its first token
 // ("crafted-undecodable-tree") or only after a first valid node ("crafted-midlist-decode-error").
@@ -158,6 +227,8 @@ func c34Scenario(c *vctx, rng *vrng, num int, force string) error {
 	ctx, cancel := context.WithCancel(context.Background())
 	defer cancel()
 	crafted := ""
+	var craftBlobs []restic.ID
+	craftOp := ""
 	if strings.HasPrefix(force, "crafted-") {
 		crafted = force
 		force = "none"
@@ -165,7 +236,12 @@ func c34Scenario(c *vctx, rng *vrng, num int, force string) error {
 		if err != nil {
 			return err
 		}
-		if err := c34Craft(ctx, r0, rng, crafted); err != nil {
+		if crafted == "crafted-adjacent-missing" || crafted == "crafted-dup-both-targets" {
+			var err error
+			if craftBlobs, craftOp, err = c34CraftPacks(ctx, r0, rng, crafted); err != nil {
+				return fmt.Errorf("crafting: %w", err)
+			}
+		} else if err := c34Craft(ctx, r0, rng, crafted); err != nil {
 			return fmt.Errorf("crafting: %w", err)
 		}
 	}
@@ -287,6 +363,18 @@ func c34Scenario(c *vctx, rng *vrng, num int, force string) error {
 	for i := 0; i < ntarget; i++ {
 		targets = append(targets, packs[(perm+i)%len(packs)])
 	}
+	if len(craftBlobs) > 0 {
+		// the packs that hold the hand-placed blobs
+		targets = nil
+		for _, p := range packs {
+			for _, b := range truth[p] {
+				if b.ID == craftBlobs[0] {
+					targets = append(targets, p)
+					break
+				}
+			}
+		}
+	}
 	isTarget := map[restic.ID]bool{}
 	for _, t := range targets {
 		isTarget[t] = true
@@ -300,6 +388,9 @@ func c34Scenario(c *vctx, rng *vrng, num int, force string) error {
 			x := rng.intn(100)
 			if force == "partial-index" {
 				x = 0
+			}
+			if len(craftBlobs) > 0 {
+				x = 99
 			}
 			switch {
 			case x < 20 && len(truth[p]) >= 2:
@@ -352,6 +443,9 @@ func c34Scenario(c *vctx, rng *vrng, num int, force string) error {
 		op := ops[rng.intn(len(ops))]
 		if ti == 0 && force != "" && force != "partial-index" {
 			op = force
+		}
+		if craftOp != "" {
+			op = craftOp
 		}
 		d := dmgT{op: op}
 		switch op {
@@ -667,7 +761,7 @@ func engineC34(c *vctx) error {
 	repository.VerifC34SetLockWait(time.Millisecond)
 	defer os.RemoveAll(filepath.Join("/dev/shm", fmt.Sprintf("verif-c34-%d", os.Getpid())))
 	num := 0
-	for _, f := range []string{"blobflip", "hdrflip", "trunc", "delete", "none", "partial-index", "blobflip", "trunc", "crafted-undecodable-tree", "crafted-midlist-decode-error"} {
+	for _, f := range []string{"blobflip", "hdrflip", "trunc", "delete", "none", "partial-index", "blobflip", "trunc", "crafted-undecodable-tree", "crafted-midlist-decode-error", "crafted-adjacent-missing", "crafted-dup-both-targets"} {
 		if err := c34Scenario(c, c.rng.fork(), num, f); err != nil {
 			return fmt.Errorf("scenario %d: %w", num, err)
 		}
